@@ -151,9 +151,9 @@ CHECKS = {
              "(release and debug-assertion builds) against the Lean model and canon of the callback history; every corpus x.vcd / x.vcd.fst pair is loaded through both paths and compared variable by variable.",
         design_ref="DESIGN.md section 5 / C10",
         note="The FST container (blocks, compression, hierarchy entries, time chain) is parsed by the fst-reader dependency: not modelled byte by byte. It is exercised with whole files written by gen/fst_writer.py "
-             "(hierarchy entries with kinds / directions / ranges / alias handles, 1..n plain value-change blocks, snapshot as frame or records, packed / ASCII / 1-bit records, raw / zlib streams, exponent -15 / -12): the real loader's full dump "
+             "(hierarchy entries with kinds / directions / ranges / alias handles, enum tables and VHDL type attributes (merged variable kinds, type names), 1..n plain value-change blocks, snapshot as frame or records, packed / ASCII / 1-bit records, raw / zlib streams, exponent -15 / -12): the real loader's full dump "
              "must equal the Lean file-level model (callbacks -> SignalWriter model -> pointer-level builder) and the design's denotation; and with the 33 corpus pairs. Not generated: LZ4 / FastLZ streams, dynamic-alias block kinds, "
-             "variable-length strings, enum tables / source locators / VHDL type attributes (corpus only). convert_timescale is modelled and proved (C10_timescale); the generated files use every exponent -15..0.",
+             "variable-length strings, source locators (corpus only). convert_timescale is modelled and proved (C10_timescale); the generated files use every exponent -15..0.",
     ),
     "C07": dict(
         technique="Lean 4 proof (refinement of the Waveform signal map to an abstract loaded-set by induction over operation sequences; load_signals = map over sorted distinct ids) + differential load/unload sequences",
